@@ -153,6 +153,9 @@ func runOne(spec *Spec, res *fw.Result, props map[string]bool) *fw.Result {
 	res.Events += len(tr.Events) + tr.IdleTicks
 	res.Counters["idle_ticks_seen"] += tr.IdleTicks
 	res.Counters["quiescent_points"] += len(tr.Quiescent)
+	if tr.BlockedQuiescent > 0 {
+		res.Counters["quiescent_points_taken_after_30ms_without_scheduler_iteration"] += tr.BlockedQuiescent
+	}
 	res.Counters[fmt.Sprintf("peak_concurrency=%d", tr.Peak)]++
 	res.ExtraSigs = append(res.ExtraSigs, specShape(spec)+"|"+tr.Signature())
 	fs := Monitor(spec, tr)
